@@ -293,9 +293,27 @@ func runKV(seed uint64, n int, outDir string, replay string) {
 		nbatch := 0
 		kinds := map[string]bool{}
 		lastLen := map[string]int{}
+		var script []string // directed sequences are played line by line
 		for i := 0; i < length; i++ {
 			k := rc.Intn(100)
 			var line string
+			if len(script) == 0 && rc.Chance(1) && i+12 < length {
+				// a key written twice, deleted through a batch, then maintenance: the older value must not come back
+				key := kvKey(rc)
+				id := fmt.Sprintf("b%d", nbatch)
+				nbatch++
+				script = []string{fmt.Sprintf("put %s %s", h.Hex(key), h.Hex(kvVal(rc))), fmt.Sprintf("put %s %s", h.Hex(key), h.Hex(kvVal(rc))),
+					"nb " + id, fmt.Sprintf("bdel %s %s", id, h.Hex(key)), "write " + id, "reset " + id, "compact nil nil",
+					fmt.Sprintf("get %s", h.Hex(key)), fmt.Sprintf("has %s", h.Hex(key)), "iter - -"}
+				open = append(open, id)
+				delete(lastLen, string(key))
+			}
+			if len(script) > 0 {
+				line, script = script[0], script[1:]
+				kinds[strings.Fields(line)[0]] = true
+				emit(bs, line)
+				continue
+			}
 			switch {
 			case k < 12:
 				key, val := kvKey(rc), kvVal(rc)
@@ -308,9 +326,9 @@ func runKV(seed uint64, n int, outDir string, replay string) {
 				line = fmt.Sprintf("del %s", h.Hex(kvKey(rc)))
 			case k < 26:
 				line = fmt.Sprintf("get %s", h.Hex(kvKey(rc)))
-			case k < 29:
+			case k < 30 && !(k == 29 && rc.Chance(25)):
 				line = fmt.Sprintf("has %s", h.Hex(kvKey(rc)))
-			case k < 30:
+			case k < 30: // (one operation in four hundred: compaction is slow on the disk engines)
 				st, lim := "nil", "nil"
 				a, b := kvKey(rc), kvKey(rc)
 				if bytes.Compare(a, b) > 0 {
